@@ -57,7 +57,7 @@ PadValid(p) == IF p.present
 (* KSI_SignatureVerifier_verify with a context, KSI_Signature_verifyWithPolicy with hash and level as arguments or inside a caller's   *)
 (* context, KSI_Signature_parseWithPolicy with a caller's context (the last three only tell OK from not-OK).  C02 replays every       *)
 (* document / level context through all of EntryPoints.                                                                              *)
-EntryPoints == {"verifier", "withPolicyArgs", "withPolicyCtx", "parseWithPolicy", "verifyDataHash", "verifyDataHashOtherCtx"}
+EntryPoints == {"verifier", "withPolicyArgs", "withPolicyCtx", "parseWithPolicy", "verifyDataHash", "verifyDataHashOtherCtx", "verifyDocument"}
 (* the last two: KSI_verifyDataHash (general policy, anchors taken from the context) through the context the signature was parsed under and through *)
 (* another, identically configured one -- the context is not a parameter of the verdict either                                                  *)
 (* benign deviations from the canonical form: listed like violations in s.viol (they change how the signature is built), but no condition is violated *)
